@@ -7,6 +7,7 @@ import (
 	"crypto/elliptic"
 	"crypto/rand"
 	"encoding/base64"
+	"encoding/json"
 	"fmt"
 	"io"
 	mrand "math/rand"
@@ -580,4 +581,155 @@ func runC14(args []string) {
 		tw.emit(ev)
 	})
 	writeSummary(fl.str("summary", ""), obj{"events": tw.n, "distinct_payloads": len(distinct), "samples": samples})
+}
+
+// ---------------------------------------------------------------------------
+// C06: SignSteps over step trees.
+// ---------------------------------------------------------------------------
+
+func c06Build(nodes []any, path string, rng *mrand.Rand) pipeline.Steps {
+	steps := pipeline.Steps{}
+	for i, n := range nodes {
+		nm := n.(map[string]any)
+		p := fmt.Sprintf("%s/%d", path, i+1)
+		switch nm["kind"] {
+		case "command":
+			cs := &pipeline.CommandStep{Command: "echo " + p, Label: "l" + p}
+			names := strs(nm["env"])
+			if len(names) > 0 || rng.Intn(2) == 0 {
+				cs.Env = map[string]string{}
+				for _, k := range names {
+					cs.Env[k] = "step-" + k
+				}
+			}
+			if rng.Intn(3) == 0 {
+				cs.Plugins = pipeline.Plugins{{Source: "docker#v1", Config: map[string]any{"image": "x" + p}}}
+			}
+			if rng.Intn(4) == 0 {
+				cs.RemainingFields = map[string]any{"agents": map[string]any{"queue": "q"}}
+			}
+			steps = append(steps, cs)
+		case "wait":
+			if rng.Intn(2) == 0 {
+				steps = append(steps, &pipeline.WaitStep{Scalar: "wait"})
+			} else {
+				steps = append(steps, &pipeline.WaitStep{Contents: map[string]any{"wait": nil, "if": "x" + p}})
+			}
+		case "input":
+			steps = append(steps, &pipeline.InputStep{Contents: map[string]any{"block": "b" + p}})
+		case "trigger":
+			steps = append(steps, &pipeline.TriggerStep{Contents: map[string]any{"trigger": "t" + p}})
+		case "unknown":
+			steps = append(steps, &pipeline.UnknownStep{Contents: "mystery" + p})
+		case "group":
+			g := "g" + p
+			kids, _ := nm["kids"].([]any)
+			steps = append(steps, &pipeline.GroupStep{Group: &g, Steps: c06Build(kids, p, rng)})
+		default:
+			fatal("c06: bad kind %v", nm["kind"])
+		}
+	}
+	return steps
+}
+
+func c06Commands(steps pipeline.Steps, out *[]*pipeline.CommandStep) {
+	for _, s := range steps {
+		switch t := s.(type) {
+		case *pipeline.CommandStep:
+			*out = append(*out, t)
+		case *pipeline.GroupStep:
+			c06Commands(t.Steps, out)
+		}
+	}
+}
+
+func c06Strip(steps pipeline.Steps) {
+	var cmds []*pipeline.CommandStep
+	c06Commands(steps, &cmds)
+	for _, c := range cmds {
+		c.Signature = nil
+	}
+}
+
+func runC06(args []string) {
+	fl := parseFlags(args)
+	tw := newTraceWriter(fl.str("out", ""))
+	defer tw.close()
+	samples := []any{}
+	algs := []string{"EdDSA", "ES512", "PS512", "ES256"}
+	nsigned := 0
+	ctx := context.Background()
+	readNDJSON(fl.str("cases", ""), func(n int, c obj) {
+		alg := algs[n%len(algs)]
+		if a, ok := c["alg"].(string); ok {
+			alg = a
+		}
+		rng := newRand(int64(n)+int64(fl.int("seed", 1))*104729, "c06")
+		tree, _ := c["tree"].([]any)
+		ev := obj{"c": obj{"tree": tree, "penv": c["penv"], "alg": alg}, "err": false, "cmds": []any{}, "unchanged": false, "envunchanged": false}
+		p, msg := guarded(func() {
+			steps := c06Build(tree, "", rng)
+			penv := envOf(c["penv"], rng)
+			penvCopy := map[string]string{}
+			for k, v := range penv {
+				penvCopy[k] = v
+			}
+			before, err := json.Marshal(steps)
+			if err != nil {
+				panic("driver: marshal before: " + err.Error())
+			}
+			kp := getKey(alg, "K1")
+			repo := "https://example.com/repo.git"
+			serr := signature.SignSteps(ctx, steps, kp.sign, repo, signature.WithEnv(penv))
+			ev["err"] = serr != nil
+			if serr != nil {
+				ev["errmsg"] = serr.Error()
+			}
+			var cmds []*pipeline.CommandStep
+			c06Commands(steps, &cmds)
+			cl := []any{}
+			for _, cs := range cmds {
+				e := obj{"signed": cs.Signature != nil, "alg": "", "fields": []string{}, "sorted": true, "verifies": false, "cmd": cs.Command}
+				if cs.Signature != nil {
+					nsigned++
+					e["alg"] = cs.Signature.Algorithm
+					e["fields"] = append([]string{}, cs.Signature.SignedFields...)
+					e["sorted"] = sort.StringsAreSorted(cs.Signature.SignedFields)
+					verr := signature.Verify(ctx, cs.Signature, keySetFor(alg, "signer"),
+						&signature.CommandStepWithInvariants{CommandStep: *cs, RepositoryURL: repo}, signature.WithEnv(penvCopy))
+					e["verifies"] = verr == nil
+					if verr != nil {
+						e["verr"] = verr.Error()
+					}
+				}
+				cl = append(cl, e)
+			}
+			ev["cmds"] = cl
+			envSame := len(penv) == len(penvCopy)
+			for k, v := range penvCopy {
+				if penv[k] != v {
+					envSame = false
+				}
+			}
+			ev["envunchanged"] = envSame
+			c06Strip(steps)
+			after, err := json.Marshal(steps)
+			if err != nil {
+				panic("marshal after: " + err.Error())
+			}
+			ev["unchanged"] = string(before) == string(after)
+		})
+		ev["panic"] = p
+		if p {
+			if strings.HasPrefix(msg, "driver:") {
+				fatal("%s", msg)
+			}
+			ev["panicmsg"] = msg
+		}
+		if len(samples) < 3 && n%2003 == 11 {
+			samples = append(samples, obj{"tree": tree, "penv": c["penv"], "alg": alg, "err": ev["errmsg"], "commands": ev["cmds"]})
+		}
+		tw.emit(ev)
+	})
+	writeSummary(fl.str("summary", ""), obj{"events": tw.n, "signatures_made": nsigned, "samples": samples})
 }
